@@ -12,7 +12,9 @@ import (
 	"fmt"
 	"io"
 	"net"
+	"reflect"
 	"strconv"
+	"strings"
 	"time"
 
 	"github.com/snower/slock/client"
@@ -64,8 +66,18 @@ func (c *vfC14Conn) take() []byte {
 // ---------------------------------------------------------------- leader (one per process)
 
 var vfC14Leader *vfInstance
+var vfC14LeaderUses int
 
+// vfC14GetLeader returns the shared leader; it is replaced by a new one every
+// 400 uses because lock managers and pooled records of released keys stay
+// reachable for a while and make the census walk slower and slower.
 func vfC14GetLeader(env *vfEnv) *vfInstance {
+	vfC14LeaderUses++
+	if vfC14Leader != nil && vfC14LeaderUses > 400 {
+		vfC14Leader.Close()
+		vfC14Leader = nil
+		vfC14LeaderUses = 1
+	}
 	if vfC14Leader == nil {
 		in, err := vfNewLeader(vfInstCfg{Dir: vfScratchDir(env, "c14"), Manual: true, AofTime: 100, NDb: 3, FastKeys: 64})
 		if err != nil {
@@ -198,11 +210,22 @@ type vfC14Differ struct {
 	compared int64
 }
 
+func vfC14Same(want, got interface{}) bool {
+	wb, wok := want.([]byte)
+	gb, gok := got.([]byte)
+	if wok && gok {
+		return bytes.Equal(wb, gb)
+	}
+	if !wok && !gok && reflect.TypeOf(want) == reflect.TypeOf(got) {
+		return want == got // arrays, integers, strings
+	}
+	return fmt.Sprintf("%x", want) == fmt.Sprintf("%x", got)
+}
+
 func (d *vfC14Differ) eq(where, field string, want, got interface{}) {
 	d.compared++
-	w, g := fmt.Sprintf("%x", want), fmt.Sprintf("%x", got)
-	if w != g {
-		d.diffs = append(d.diffs, vfC14Diff{where, field, w, g})
+	if !vfC14Same(want, got) {
+		d.diffs = append(d.diffs, vfC14Diff{where, field, fmt.Sprintf("%x", want), fmt.Sprintf("%x", got)})
 	}
 }
 
@@ -243,8 +266,14 @@ func (d *vfC14Differ) compareResultFrame(where string, frame []byte, cmd *protoc
 	}
 }
 
-func (d *vfC14Differ) compareHeld(where string, in *vfInstance, cmd *protocol.LockCommand) {
+// compareHeld: light = skip the census walk (used for all but the first and last
+// variant of a split sweep; the stored command is still compared field by field).
+func (d *vfC14Differ) compareHeld(where string, in *vfInstance, cmd *protocol.LockCommand, light bool) {
 	db := in.dbs[cmd.DbId]
+	if light {
+		d.compareRecord(where, db, cmd)
+		return
+	}
 	cs := vfTakeCensus(db)
 	k := cs.find(cmd.DbId, cmd.LockKey)
 	if k == nil || len(k.Holds) != 1 {
@@ -266,6 +295,10 @@ func (d *vfC14Differ) compareHeld(where string, in *vfInstance, cmd *protocol.Lo
 	d.eq(where+"@census", "Expried", cmd.Expried, h.Expried)
 	d.eq(where+"@census", "RequestId", cmd.RequestId, h.ReqId)
 	d.eq(where+"@census", "Locked", uint32(1), k.Locked)
+	d.compareRecord(where, db, cmd)
+}
+
+func (d *vfC14Differ) compareRecord(where string, db *LockDB, cmd *protocol.LockCommand) {
 	held := vfC14HeldCommand(db, cmd.LockKey)
 	if held == nil {
 		d.diffs = append(d.diffs, vfC14Diff{where + "@record", "stored command", "present", "absent"})
@@ -285,7 +318,14 @@ func (d *vfC14Differ) compareHeld(where string, in *vfInstance, cmd *protocol.Lo
 	d.eq(where+"@record", "Rcount", cmd.Rcount, held.Rcount)
 }
 
-func (d *vfC14Differ) compareReleased(where string, in *vfInstance, cmd *protocol.LockCommand) {
+func (d *vfC14Differ) compareReleased(where string, in *vfInstance, cmd *protocol.LockCommand, light bool) {
+	if light {
+		d.compared++
+		if vfC14HeldCommand(in.dbs[cmd.DbId], cmd.LockKey) != nil {
+			d.diffs = append(d.diffs, vfC14Diff{where + "@record", "holder after UNLOCK", "none", "present"})
+		}
+		return
+	}
 	cs := vfTakeCensus(in.dbs[cmd.DbId])
 	k := cs.find(cmd.DbId, cmd.LockKey)
 	d.compared++
@@ -296,7 +336,7 @@ func (d *vfC14Differ) compareReleased(where string, in *vfInstance, cmd *protoco
 
 // lockCycle: LOCK frames (chunked as given) -> results + held records, then
 // UNLOCK -> results + released. Returns the diffs.
-func vfC14LockCycle(r *vfRand, in *vfInstance, cmds []protocol.LockCommand, frames [][]byte, chunks [][]byte) (*vfC14Differ, []byte) {
+func vfC14LockCycle(r *vfRand, in *vfInstance, cmds []protocol.LockCommand, frames [][]byte, chunks [][]byte, light bool) (*vfC14Differ, []byte) {
 	d := &vfC14Differ{}
 	s := vfC14NewBinSession(in)
 	defer s.close()
@@ -311,7 +351,7 @@ func vfC14LockCycle(r *vfRand, in *vfInstance, cmds []protocol.LockCommand, fram
 	} else {
 		for j := range cmds {
 			d.compareResultFrame(fmt.Sprintf("lock[%d].result", j), out[64*j:64*j+64], &cmds[j], protocol.RESULT_SUCCED, 1, 1, nil)
-			d.compareHeld(fmt.Sprintf("lock[%d].held", j), in, &cmds[j])
+			d.compareHeld(fmt.Sprintf("lock[%d].held", j), in, &cmds[j], light)
 		}
 	}
 	var ustream []byte
@@ -330,7 +370,7 @@ func vfC14LockCycle(r *vfRand, in *vfInstance, cmds []protocol.LockCommand, fram
 		for j := range cmds {
 			// the UNLOCK reply echoes the unlock request's ids; Count/Rcount/LCount are those of the released hold and not asserted here
 			d.compareResultFrame(fmt.Sprintf("unlock[%d].result", j), uout[64*j:64*j+64], &ucmds[j], protocol.RESULT_SUCCED, 0, 0, map[string]bool{"Lcount": true, "Count": true, "Lrcount": true, "Rcount": true})
-			d.compareReleased(fmt.Sprintf("unlock[%d]", j), in, &cmds[j])
+			d.compareReleased(fmt.Sprintf("unlock[%d]", j), in, &cmds[j], light || j > 0 || r.Intn(4) != 0)
 		}
 	}
 	return d, out
@@ -378,8 +418,12 @@ func (c *vfC14Ctx) subBinary() {
 			variants = append(variants, [][]byte{stream[:k], stream[k:]})
 		}
 	}
-	for _, chunks := range variants {
-		d, out := vfC14LockCycle(r, in, cmds, frames, chunks)
+	for vi, chunks := range variants {
+		light := vi > 0 && vi < len(variants)-1
+		if !light {
+			c.part.Add("bin_census_compared", 1)
+		}
+		d, out := vfC14LockCycle(r, in, cmds, frames, chunks, light)
 		c.part.Add("bin_frames", int64(n))
 		c.part.Add("bin_fields_compared", d.compared)
 		if len(chunks) > 1 {
@@ -727,8 +771,12 @@ func (c *vfC14Ctx) subEquiv() {
 
 	ts := vfC14NewTextSession(in)
 	defer ts.close()
-	raw, _ := ts.run(chunks)
+	raw, runErr := ts.run(chunks)
 	doc["text_reply"] = fmt.Sprintf("%q", raw)
+	if ts.stuck {
+		fail("text-lock:blocked", fmt.Sprintf("text LOCK %q on a fresh key: %v", lockArgs, runErr))
+		return
+	}
 	replies, rerr := vfC14ReadRESP(raw)
 	if rerr != nil || len(replies) != nPre+1 {
 		fail("text-lock:reply-malformed", fmt.Sprintf("text LOCK %q: reply %q is not %d well-formed RESP value(s): %v", lockArgs, raw, nPre+1, rerr))
@@ -939,11 +987,21 @@ func (c *vfC14Ctx) subRender() {
 			}},
 			{"TextServerProtocol.WriteCommand", false, func() error { return tsp.WriteCommand(mk()) }},
 			{"TextServerProtocol.ProcessBuild", false, func() error { return tsp.ProcessBuild(mk()) }},
+			{"client.TextClientProtocol.WriteCommand", false, func() error {
+				// writes into its own connection; copy to the session's so that the common reader sees it
+				cc := &vfC14Conn{}
+				err := client.NewTextClientProtocol(client.NewStream(cc)).WriteCommand(mk())
+				ts.conn.out = append(ts.conn.out, cc.out...)
+				return err
+			}},
 		}
+		var noRender []string // paths on which this code has no rendering at all
+		lastRaw := ""
 		for _, p := range paths {
 			ts.conn.take()
 			err, pan := vfC14Guard(p.f)
 			raw := ts.conn.take()
+			lastRaw = fmt.Sprintf("%q", raw)
 			c.part.Add("render_codes_checked", 1)
 			c.part.Add(fmt.Sprintf("render_code_%02d", code), 1)
 			problem, field := "", ""
@@ -983,10 +1041,13 @@ func (c *vfC14Ctx) subRender() {
 					fmt.Sprintf("result code %d (%s): %s %s", code, vfResName(uint8(code)), p.name, problem),
 					map[string]interface{}{"result_code": code, "path": p.name, "problem": problem, "written": fmt.Sprintf("%q", raw)}, 2)
 			} else if problem != "" {
-				c.report("render", "result-code-text-rendering", fmt.Sprintf("text-render:result-code-%d", code),
-					fmt.Sprintf("result code %d (%s) has no text rendering: %s %s", code, vfResName(uint8(code)), p.name, problem),
-					map[string]interface{}{"result_code": code, "path": p.name, "problem": problem, "written": fmt.Sprintf("%q", raw)}, 1)
+				noRender = append(noRender, p.name+" "+problem)
 			}
+		}
+		if len(noRender) > 0 {
+			c.report("render", "result-code-text-rendering", fmt.Sprintf("text-render:result-code-%d", code),
+				fmt.Sprintf("result code %d (%s) has no text rendering on %d of %d rendering paths: %s", code, vfResName(uint8(code)), len(noRender), len(paths), strings.Join(noRender, " | ")),
+				map[string]interface{}{"result_code": code, "paths": noRender, "written": lastRaw}, 1)
 		}
 	}
 	c.nontrivial("render", r.Bytes(8))
